@@ -64,7 +64,7 @@ def gen_desc(rng, n, p_edge=None, kinds=None, cycles=True):
     return d
 
 
-def build(desc, order=None, child_orders=None, add_via='add_node'):
+def build(desc, order=None, child_orders=None, add_via='add_node', ids=None):
     """real AttackGraph from a description.  `order`: permutation of node
     indices giving the order of graph.nodes; child/parent list orders follow
     the (possibly permuted) edge list.  Returns (graph, [node objects by index])."""
@@ -84,7 +84,10 @@ def build(desc, order=None, child_orders=None, add_via='add_node'):
             node.is_viable = nd['is_viable']
         if 'is_necessary' in nd:
             node.is_necessary = nd['is_necessary']
-        g.add_node(node)
+        if ids is not None:
+            g.add_node(node, node_id=ids[i])      # explicit ids: graph.nodes need not be ordered by id
+        else:
+            g.add_node(node)
         objs[i] = node
     edges = desc['edges'] if child_orders is None else child_orders
     for i, j in edges:
